@@ -271,7 +271,7 @@ func (f *zzFailNth) Write(ctx context.Context, r *Rpc) error {
 
 // H_C04_stream_md: headers and trailers a streaming handler sets reach the caller whatever the
 // way they leave: mode 0 SetHeader only (they leave with the final status, no message sent),
-// 1 SetHeader then one message, 2 SetHeader + SendHeader; herr: the handler returns an error.
+// 1 SetHeader then one message, 2 SetHeader + SendHeader, 5 SendHeader concurrent with a send; herr: the handler returns an error.
 // Values are symbolic (incl. a -bin key with arbitrary bytes), two values under one key.
 func H_C04_stream_md() {
 	mode := vfParam("mode", 0)
@@ -281,6 +281,7 @@ func H_C04_stream_md() {
 	if herrP == 1 {
 		herr = errors.New("handler failed")
 	}
+	var lateErr error
 	sh := func(srv any, stream grpc.ServerStream) error {
 		stream.SetHeader(metadata.MD{"k": {v1}})
 		stream.SetHeader(metadata.MD{"k": {v2}, "x-bin": {b1}})
@@ -292,6 +293,16 @@ func H_C04_stream_md() {
 			}
 		case 2:
 			if err := stream.SendHeader(metadata.MD{"late": {"x"}}); err != nil {
+				return err
+			}
+		case 5:
+			// SendHeader concurrent with a send from another goroutine of the handler (the API permits
+			// header calls concurrent with sends): whichever goes first, the first envelope on the wire
+			// carries the pending headers; if SendHeader reported success its metadata is among them
+			sent := make(chan error, 1)
+			go func() { sent <- stream.SendMsg(&testproto.Msg{Value: 7}) }()
+			lateErr = stream.SendHeader(metadata.MD{"late": {"x"}})
+			if err := <-sent; err != nil {
 				return err
 			}
 		case 3, 4:
@@ -340,6 +351,9 @@ func H_C04_stream_md() {
 		vfAssert(len(hdr["x-bin"]) == 1 && hdr["x-bin"][0] == b1, "binary-header-byte-exact")
 		if mode == 2 {
 			vfAssert(len(hdr["late"]) == 1, "SendHeader-metadata-included")
+		}
+		if mode == 5 && lateErr == nil {
+			vfAssert(len(hdr["late"]) == 1, "successful-SendHeader-metadata-included")
 		}
 		vfAssert(len(trl["t"]) == 1 && trl["t"][0] == t1, "trailer-arrives")
 		vfReach("checked")
